@@ -104,6 +104,7 @@ def _job(job):
     for hid, h in hists:
         d = lib.workdir("sys_")
         hs, model_keys, evs, cs, cmodel = [], [], [], [], []
+        saved_at = {}  # user path -> model key of what was saved there (kept apart from `obs`, which every request clears)
         try:
             for e in h:
                 ev = dict(op=e["op"], c=e.get("c", "-"), fl=list(e.get("fl", [])), i=int(e.get("i", 0)), f=e.get("f", "-"), p=e.get("p", "-"), how="-", res="ok", key=["-", []], dig=[], ref=[],
@@ -129,11 +130,11 @@ def _job(job):
                         hs[e["i"] - 1].save(os.path.join(d, f"user_{e['p']}.zanj"))
                         ds = None
                         saved = model_keys[e["i"] - 1]
-                        obs["saved_" + e["p"]] = saved
+                        saved_at[e["p"]] = saved
                     elif e["op"] == "read":
                         ds = MazeDataset.read(os.path.join(d, f"user_{e['p']}.zanj"))
                         hs.append(ds)
-                        model_keys.append(obs["saved_" + e["p"]])
+                        model_keys.append(saved_at[e["p"]])
                     elif e["op"] == "view":
                         ev["v"] = e["v"]
                         mk_ = model_keys[e["i"] - 1]
